@@ -128,3 +128,54 @@ class NPInt:
 
     def __getattr__(self, n):
         return getattr(_np, n)
+
+
+# ---------------------------------------------------------------- real-array back ends (C02/C19)
+
+def frames_array(total, n_atoms=4, scale=1.0):
+    """coordinates (total, n_atoms, 3): atom j of frame i sits at (i, j, 0)*scale."""
+    a = _np.zeros((total, n_atoms, 3), dtype=_np.float32)
+    a[:, :, 0] = _np.arange(total, dtype=_np.float32)[:, None]
+    a[:, :, 1] = _np.arange(n_atoms, dtype=_np.float32)[None, :]
+    return a * scale
+
+
+class ArrNode:
+    """pytables EArray / netCDF variable over a real numpy array (numpy's own indexing)."""
+
+    def __init__(self, data, units="dimensionless"):
+        self.data = data
+        self.attrs = FakeAttrs(units)
+
+    @property
+    def shape(self):
+        return self.data.shape
+
+    def __len__(self):
+        return len(self.data)
+
+    def __getitem__(self, key):
+        return _np.array(self.data[key])
+
+
+def h5_handle_arrays(total, n_atoms=4, cell=True):
+    h = FakeH5Handle(0, fields=())
+    h.nodes = {"coordinates": ArrNode(frames_array(total, n_atoms), "nanometers"),
+               "time": ArrNode(_np.arange(total, dtype=_np.float32) * 2.0, "picoseconds")}
+    if cell:
+        h.nodes["cell_lengths"] = ArrNode(_np.arange(total, dtype=_np.float32)[:, None] + _np.array([[5.0, 6.0, 7.0]], dtype=_np.float32), "nanometers")
+        h.nodes["cell_angles"] = ArrNode(_np.full((total, 3), 90.0, dtype=_np.float32), "degrees")
+    for k, v in h.nodes.items():
+        setattr(h.root, k, v)
+    return h
+
+
+def nc_handle_arrays(total, n_atoms=4, cell=True):
+    h = FakeNCHandle(0, fields=())
+    h.variables = {"coordinates": ArrNode(frames_array(total, n_atoms, 10.0)),
+                   "time": ArrNode(_np.arange(total, dtype=_np.float32) * 2.0)}
+    if cell:
+        h.variables["cell_lengths"] = ArrNode((_np.arange(total, dtype=_np.float32)[:, None] + _np.array([[5.0, 6.0, 7.0]], dtype=_np.float32)) * 10)
+        h.variables["cell_angles"] = ArrNode(_np.full((total, 3), 90.0, dtype=_np.float32))
+    h.dimensions = {"atom": FakeDim(n_atoms)}
+    return h
